@@ -104,6 +104,10 @@ def _sca(depth: int, k: int) -> st.SearchStrategy[Any]:
         st.builds(lambda k, a: ["norm", ["scale", k, a]], sub, vec),
         # norm of a sum whose terms share one scalar factor: |k| must come out, not k
         st.builds(lambda k, a, b: ["norm", ["add", ["scale", k, a], ["scale", k, b]]], sub, vec, vec),
+        # two triple products over the same operands in orders of opposite parity, meeting in one expression
+        st.builds(lambda a, b, c, neg: ["addS", ["mixed", a, b, c], ["negS", ["mixed", b, a, c]] if neg else ["mixed", b, a, c]],
+            vec, vec, vec, st.booleans()),
+        st.builds(lambda a, b, c: ["mul", ["mixed", a, b, c], ["mixed", a, c, b]], vec, vec, vec),
         st.builds(lambda a, b: ["mul", a, b], sub, sub), st.builds(lambda a, b: ["addS", a, b], sub, sub),
         st.builds(lambda a, b: ["addS", a, ["negS", b]], sub, sub), st.builds(lambda a: ["negS", a], sub),
         st.builds(lambda a, b: ["addS", ["negS", a], ["negS", b]], sub, sub),
@@ -366,6 +370,7 @@ def _judge(case: dict[str, Any]) -> list[tuple[str, str]]:
         finally:
             r3.STRICT_KINK = False
         want = r3.deriv(mval) if deriv else r3.plain(mval)
+        uneval_bad = ""
         for name, obj in routes:
             try:
                 got = _eval_lib(obj, lenv) if not isinstance(obj, int) else r3.mpf(obj)
@@ -377,11 +382,17 @@ def _judge(case: dict[str, Any]) -> list[tuple[str, str]]:
                 return [("__discard__", "division by zero at the assignment (norm of zero vector)")]
             if not r3.close(got, want):
                 if name == "uneval":
-                    raise AssertionError(f"harness self-check failed: interpreter != model on {d}")
+                    # the unevaluated tree, read by the harness interpreter, should be the model's value: a disagreement
+                    # is a harness error - unless the evaluated routes of the same case disagree with the model too (then
+                    # the library's own equality/merging has already changed the tree while it was being built)
+                    uneval_bad = f"harness self-check failed: interpreter != model on {d}"
+                    continue
                 sig = _blame(bt, case, d, a) if not deriv else _skeleton(d, 2)
                 out.append((f"mismatch:{name}:{sig}",
                     f"route={name} tree={d} idrank={case['perm']} library={obj} "
                     f"value={r3.show(got)} model={r3.show(want)}"))
+        if uneval_bad and not out:
+            raise AssertionError(uneval_bad)
         if out:
             break
     return out
